@@ -266,19 +266,17 @@ class Throws:
         callee = self.u.func_of(d["id"])
         if callee is not None and callee.in_repo():
             return depth < 25 and self.may_throw(callee, depth + 1)
-        if d.get("noexcept"):
-            return False
-        rq = d.get("recqn", "")
-        if d["name"] in THROWING_STD and rq.startswith(("std::vector<", "std::array<", "std::optional<")):
-            return True
+        # std calls: .at() / .value() can throw only on an index / emptiness bug, which the region evaluator
+        # decides separately; counting them here would flag behaviour-preserving rewrites (a loop over valid
+        # indices written with .at()).  Commit-last is about the library's own refusals.
         return False
 
 
 def commit_last(chk, units):
     rule = "R-OWN.commit"
-    chk.rule(rule, "in every non-const member function no call that may throw the library's exception (or "
-                   "bad_optional_access / out_of_range) is reachable after the first write to the object: a failing "
-                   "in-place operation leaves its target unchanged")
+    chk.rule(rule, "in every non-const member function no call that may throw the library's exception (reaches a "
+                   "throw expression through the resolved call graph) is reachable after the first write to the object: "
+                   "a refused in-place operation leaves its target unchanged")
     seen = set()
     for u in units:
         thr = Throws(u)
@@ -461,6 +459,11 @@ def _rooted_in_temporary(u, e, is_ref, depth=0):
         if depth == 0 and is_ref:
             return None  # reference bound directly to a prvalue: lifetime-extended
         inner = strip(kids(e)[0]) if kids(e) else None
+        tt = u.types[e["t"]] if e.get("t") is not None else ""
+        if tt.replace("const ", "").startswith(("__gnu_cxx::__normal_iterator<", "std::reverse_iterator<",
+                                                 "std::move_iterator<")) or tt.rstrip().endswith("*"):
+            # a temporary *iterator / pointer* is a value: what matters is the container it points into
+            return _rooted_in_temporary(u, inner, is_ref, depth + 1) if inner is not None else None
         # a temporary materialised so that a member can be called on it
         return "temporary of type %s" % (u.types[e["t"]][:50] if e.get("t") is not None else "?")
     if k in CALL_KINDS:
